@@ -31,6 +31,7 @@ func c05Alphabet() []fsx.Op {
 		{K: "SYMLINK", H: "root", N: nameOfLen(200, 'x'), Target: "t"},        // refused after the target block was allocated
 		{K: "RENAME", H: "root", N: "a", H2: "root", N2: nameOfLen(200, 'z')}, // refused after lookup
 		{K: "REMOVE", H: "root", N: "a"}, {K: "REMOVE", H: "root/d", N: "a"}, {K: "REMOVE", H: "root/d/e", N: "x"}, {K: "RMDIR", H: "root/d", N: "e"}, {K: "RMDIR", H: "root", N: "d"}, {K: "REMOVE", H: "root", N: "s"},
+		{K: "REMOVE", H: "root/d", N: "e"}, // REMOVE of a directory (accepted if empty)
 		{K: "RESTART"},
 		{K: "SHRINKCRASH"}, // the server's Crash(): background freeing stops half-way, restart
 		{K: "DELETEALL"},
